@@ -19,7 +19,7 @@ from typedpy.structures import StructMeta
 from typedpy.serialization.mappers import DoNotSerialize
 
 NAMES = ["a_b1", "x", "aB", "first_name", "a", "b", "c", "a_b", "n", "m", "q_r", "X", "b1", "firstName",
-         "A", "k", "n_1", "abc", "a_bC", "first_Name"]
+         "A", "k", "n_1", "abc", "a_bC", "first_Name", "a_b1c", "x_2y"]
 FRESH_KEYS = ["k1", "key_two", "K", "zz", "b", "a", "x", "aB", "a_b", "X", "Q", "first_name", "n", "c", "A_B1"]
 
 _counter = [0]
